@@ -465,3 +465,239 @@ spec('C18', correspond=c18_correspond, replay=c18_replay, modules=['C18'], plain
      trusted=['std::io::BufReader::read_line as modelled (fill one chunk, scan for newline, consume)', 'UTF-8 decoding', 'the correspondence check'],
      assumptions=['the OS delivers non-empty reads before end of input', 'OS batching, process start-up and exit are runtime behaviour: exercised, not proved',
                   'REPL layer: differential only (model evaluator running the real repl.lisp vs the real binary)'])
+
+
+# ================================================================================================ C13
+
+PLAIN_SYMS = ['foo', 'bar', 'a', 'b', 'kind']
+
+def c13_tree(rng, depth=0):
+    k = rng.random()
+    if depth >= 4 or k < 0.45:
+        a = rng.random()
+        if a < 0.35: return ('int', rng.choice([0, 1, 2, -1, 7, 2**62]))
+        if a < 0.55: return ('chr', rng.choice('abcx'))
+        if a < 0.8: return ('sym', rng.choice(PLAIN_SYMS))
+        return ('nil',)
+    if k < 0.8:
+        return ('list', [c13_tree(rng, depth + 1) for _ in range(rng.randint(0, 4))])
+    return ('cons', c13_tree(rng, depth + 1), c13_tree(rng, depth + 1))
+
+def c13_norm(t):
+    """the metadata-free tree a value denotes: lists become cons chains"""
+    if t[0] == 'list':
+        r = ('nil',)
+        for x in reversed(t[1]):
+            r = ('cons', c13_norm(x), r)
+        return r
+    if t[0] == 'cons':
+        return ('cons', c13_norm(t[1]), c13_norm(t[2]))
+    return t
+
+def c13_expr(t, rng, meta_rate):
+    """an expression that builds the tree, atoms with or without reader metadata"""
+    meta = rng.random() < meta_rate
+    if t[0] == 'int': return str(t[1]) if meta else f'(add {t[1]} 0)'
+    if t[0] == 'chr': return f'%{t[1]}' if meta else f"(car (print '{t[1]}))"
+    if t[0] == 'sym': return f"'{t[1]}" if meta else f"(car (. (destructure-function (lambda ({t[1]}) 1)) 'parameters))"
+    if t[0] == 'nil': return 'nil' if meta else '()'
+    if t[0] == 'list':
+        if rng.random() < 0.5:
+            return '(list ' + ' '.join(c13_expr(x, rng, meta_rate) for x in t[1]) + ')'
+        r = 'nil' if rng.random() < 0.3 else '()'
+        for x in reversed(t[1]):
+            r = f'(cons {c13_expr(x, rng, meta_rate)} {r})'
+        return r
+    return f'(cons {c13_expr(t[1], rng, meta_rate)} {c13_expr(t[2], rng, meta_rate)})'
+
+def c13_mutate(t, rng):
+    k = rng.random()
+    if k < 0.4:
+        return t
+    if t[0] == 'list' and t[1]:
+        i = rng.randrange(len(t[1]))
+        c = rng.random()
+        xs = list(t[1])
+        if c < 0.4: xs[i] = c13_mutate(xs[i], rng)
+        elif c < 0.55: xs = xs[:i] + xs[i + 1:]
+        elif c < 0.7: xs = xs + [c13_tree(rng, 3)]
+        elif c < 0.85:
+            r = c13_tree(rng, 3)     # proper -> improper tail
+            for x in reversed(xs):
+                r = ('cons', x, r)
+            return r
+        else: xs[i] = c13_tree(rng, 3)
+        return ('list', xs)
+    if t[0] == 'cons':
+        return ('cons', c13_mutate(t[1], rng), t[2]) if rng.random() < 0.5 else ('cons', t[1], c13_mutate(t[2], rng))
+    return c13_tree(rng, 3) if rng.random() < 0.7 else t
+
+def c13_correspond(run, rng, tier):
+    n = 1500 if tier == 'quick' else 20000
+    sessions, meta = [], []
+    batch, bmeta = [], []
+    eq_count = 0
+    for i in range(n):
+        a = c13_tree(rng)
+        b = c13_mutate(a, rng)
+        c = c13_mutate(b, rng)
+        ea, eb, ec = (c13_expr(x, rng, rng.choice([0.0, 0.5, 1.0])) for x in (a, b, c))
+        text = f"(list (= {ea} {eb}) (= {eb} {ea}) (= {eb} {ec}) (= {ea} {ec}) (= {ea} {ea}) (= (print {ea}) (print {eb})))"
+        batch.append(text)
+        bmeta.append((a, b, c, text))
+        if len(batch) == 25 or i == n - 1:
+            sessions.append(['new prelude', 'eval ' + hexs('\n'.join(batch))])
+            meta.append(bmeta)
+            batch, bmeta = [], []
+    real, model = both(sessions)
+    diffs = compare(sessions, real, model)
+    failures = []
+    dist = {'equal_pairs': 0, 'unequal_pairs': 0, 'transitivity_instances': 0}
+    for bm, r in zip(meta, real):
+        results, _ = parse_eval(r[1] if len(r) > 1 else '')
+        if results is None or len(results) != len(bm):
+            failures.append({'problem': 'driver did not answer every form', 'expression': bm[0][3], 'real': (r[1] if len(r) > 1 else '')[:300]})
+            continue
+        for (a, b, c, text), (kind, printed, dump) in zip(bm, results):
+            na, nb, nc = c13_norm(a), c13_norm(b), c13_norm(c)
+            T = lambda v: 't' if v else '()'
+            exp = [T(na == nb), T(nb == na), T(nb == nc), T(na == nc), 't']
+            dist['equal_pairs' if na == nb else 'unequal_pairs'] += 1
+            if na == nb and nb == nc: dist['transitivity_instances'] += 1
+            got = re.findall(r'\(\)|t', printed[1:-1]) if kind == 'ok' else None
+            ok = got is not None and len(got) == 6 and got[:5] == exp and (na != nb or got[5] == 't')
+            if not ok:
+                failures.append({'expression': text, 'expected': exp + ['t if equal'], 'real': f'{kind} {printed}',
+                                 'replay_cmd': f"{lib.REPO}/target/debug/picilisp --expression '{text}'"})
+    return {'evaluations': n, 'distinct_nontrivial': dist['equal_pairs'] + dist['unequal_pairs'],
+            'rule': 'triples (a, b, c) of data where b and c are mutations (0-2 edits: change an atom, drop/add an element, proper->improper tail, replace a subtree) of a; '
+                    'every atom is built with or without reader metadata at random; =, symmetry, transitivity, reflexivity and print-equality are evaluated by the real interpreter, the model and a Python structural-equality oracle',
+            'samples': [m[0][3] for m in meta[:3]], 'disagreements': diffs, 'oracle_failures': failures, 'distribution': dist}
+
+def generic_replay(run, content):
+    exprs = [f['expression'] for f in content.get('failures', []) if 'expression' in f]
+    sessions = [['new prelude', 'eval ' + hexs(e)] for e in exprs]
+    real, model = both(sessions)
+    for e, r in zip(exprs, real):
+        print(e, '=>', (r[1] if len(r) > 1 else r)[:300])
+    return {'evaluations': len(exprs), 'distinct_nontrivial': max(2, len(exprs)), 'samples': exprs[:3] or ['none'], 'disagreements': compare(sessions, real, model), 'oracle_failures': [], 'rule': 'replay'}
+
+spec('C13', correspond=c13_correspond, replay=generic_replay, modules=['C13'],
+     search=lambda run, rng, d: c13_correspond(run, random.Random(rng.random()), 'quick')['oracle_failures'],
+     trusted=['tree-valued model of heap values: sharing of substructure is invisible to `=` (exercised on the real heap by the generator)', 'the correspondence check'],
+     assumptions=['data: free of functions and traps; metadata cells never nest (allocate_metadata refuses it)',
+                  'native recursion depth of equal_internal is unbounded: a C06 matter (known finding F14)'])
+
+
+# ================================================================================================ C14
+
+def c14_configs():
+    subsets = [(), ('x',), ('y',), ('x', 'y')]
+    exports = [None, ('zz',), ('x',), ('x', 'y')]
+    for da in subsets:
+        for ea in exports:
+            for db in subsets:
+                for eb in exports:
+                    for ddef in [(), ('x',)]:
+                        for order in (('ma', 'mb'), ('mb', 'ma')):
+                            yield {'ma': (da, ea), 'mb': (db, eb), 'default': (ddef, None), 'order': order}
+
+VAL = {('ma', 'x'): 11, ('ma', 'y'): 12, ('mb', 'x'): 21, ('mb', 'y'): 22, ('default', 'x'): 31}
+
+def c14_module_text(mod, defs, exports):
+    # the probes are defined first: macro expansion of a definition already resolves the symbols of its body,
+    # so a probe must be created while the name is not yet ambiguous
+    forms = []
+    for n in ('x', 'y'):
+        forms.append(f"(define (quote probe-{mod}-{n}) (lambda () {n}) (list))")
+    for n in defs:
+        forms.append(f"(define (quote {n}) {VAL[(mod, n)]} (list))")
+    if exports is not None:
+        forms.append("(export (quote (" + ' '.join(list(exports) + [f'probe-{mod}-x', f'probe-{mod}-y']) + ")))")
+    return ' '.join(forms)
+
+def c14_program(cfg):
+    forms = []
+    for mod in cfg['order']:
+        defs, exports = cfg[mod]
+        text = c14_module_text(mod, defs, exports)
+        forms.append(f'(load-all "{text}" "{mod}")')
+    for n in cfg['default'][0]:
+        forms.append(f"(define (quote {n}) {VAL[('default', n)]} (list))")
+    queries = []
+    for n in ('x', 'y'):
+        queries.append((('sym', n, 'default'), n))
+        for mod in ('ma', 'mb'):
+            queries.append((('sym', n, mod), f'(probe-{mod}-{n})'))
+            queries.append((('from', n, mod), f"(from-module (quote {n}) (quote {mod}))"))
+            queries.append((('with', n, mod), f"(with-current-module (quote {n}) (quote {mod}))"))
+        queries.append((('whereis', n), f"(whereis (quote {n}))"))
+    return forms, queries
+
+def c14_visible(cfg, name, home):
+    vis = []
+    for mod in ('default', 'ma', 'mb'):
+        defs, exports = cfg[mod]
+        if name in defs and (exports is None or name in exports or mod == home):
+            vis.append(mod)
+    return vis
+
+def c14_expected(cfg, q):
+    if q[0] in ('sym', 'with'):
+        _, name, home = q
+        vis = c14_visible(cfg, name, home)
+        src = 'eval' if q[0] == 'sym' else 'with-current-module'
+        if len(vis) == 1: return ('ok', str(VAL[(vis[0], name)]))
+        if not vis: return ('sig', f'(kind unbound-symbol source {src} symbol {name})')
+        # a symbol typed at top level meets macro expansion first, which resolves symbols too; inside a closure body it is eval
+        if q[0] == 'sym' and home == 'default': src = 'macroexpand'
+        return ('sig', f'(kind ambiguous-name source {src} symbol {name} conflicting-modules ({" ".join(sorted(vis))}))')
+    if q[0] == 'from':
+        _, name, mod = q
+        defs, exports = cfg[mod]
+        if name in defs and (exports is None or name in exports): return ('ok', str(VAL[(mod, name)]))
+        return ('sig', f'(kind unbound-symbol source from-module symbol {name})')
+    _, name = q
+    mods = sorted(m for m in ('default', 'ma', 'mb') if name in cfg[m][0])
+    return ('ok', '(' + ' '.join(mods) + ')')
+
+def c14_correspond(run, rng, tier):
+    cfgs = list(c14_configs())
+    if tier == 'quick':
+        rng.shuffle(cfgs)
+        cfgs = cfgs[:700]
+    sessions, meta = [], []
+    for cfg in cfgs:
+        forms, queries = c14_program(cfg)
+        sessions.append(['new', 'eval ' + hexs('\n'.join(forms)), 'eval ' + hexs('\n'.join(t for _, t in queries))])
+        meta.append((cfg, queries))
+    real, model = both(sessions)
+    diffs = compare(sessions, real, model)
+    failures = []
+    dist = {'found': 0, 'unbound': 0, 'ambiguous': 0, 'queries': 0}
+    for (cfg, queries), r in zip(meta, real):
+        results, _ = parse_eval(r[2] if len(r) > 2 else '')
+        if results is None or len(results) != len(queries):
+            failures.append({'config': str(cfg), 'problem': 'driver did not answer every query', 'real': (r[2] if len(r) > 2 else str(r))[:300]})
+            continue
+        for (q, text), (kind, printed, _) in zip(queries, results):
+            ek, ep = c14_expected(cfg, q)
+            dist['queries'] += 1
+            if ek == 'ok' and q[0] != 'whereis': dist['found'] += 1
+            elif 'ambiguous' in ep: dist['ambiguous'] += 1
+            elif ek == 'sig': dist['unbound'] += 1
+            if (kind, printed) != (ek, ep):
+                forms, _ = c14_program(cfg)
+                failures.append({'config': str(cfg), 'query': text, 'expected': f'{ek} {ep}', 'real': f'{kind} {printed}',
+                                 'expression': '\n'.join(forms) + '\n' + text})
+    return {'evaluations': len(cfgs), 'distinct_nontrivial': len(cfgs),
+            'rule': 'configurations of two loaded modules + default: definition subsets of {x, y} x export sets {none, {zz}, {x}, {x y}} per module x default defines x or not x both load orders '
+                    '(all 1024 in the thorough tier, a random 700 in the quick tier); each queried by symbol evaluation from default and from a closure of each module, from-module, with-current-module, whereis; '
+                    'real interpreter vs model vs a Python visibility oracle',
+            'samples': [str(c) for c in cfgs[:3]], 'disagreements': diffs, 'oracle_failures': failures, 'distribution': dist,
+            'exhaustive': tier != 'quick'}
+
+spec('C14', correspond=c14_correspond, replay=generic_replay, modules=['C14'],
+     search=lambda run, rng, d: c14_correspond(run, random.Random(rng.random()), 'quick')['oracle_failures'],
+     trusted=['HashMap/HashSet as finite maps with unspecified iteration order', 'the correspondence check'],
+     assumptions=['module names and global names are plain strings; a closure\'s home module is the module name captured at its creation'])
